@@ -253,6 +253,113 @@ end subroutine Nest
 """,
 })
 
+VALID.update({
+    # attribute-specification statements, ENTRY and a statement function; type-bound procedures, parameterised and
+    # sequence types, an abstract interface; shared and action-term DO terminations, EXIT, GO TO, masked ELSEWHERE, file positioning
+    "attrs": """subroutine Attrs(a, b, c, n, opt)
+  integer n, k, m
+  real a, b, c, w, z, f, x
+  real, save :: total
+  allocatable w
+  asynchronous z
+  dimension a(n), b(n), w(:)
+  equivalence (k, m)
+  external Ext_Fun
+  intent(in) n
+  intent(inout) a, b
+  intrinsic sin
+  optional opt
+  parameter (Two = 2.0)
+  pointer Ptr
+  save z
+  target c
+  value n
+  volatile k
+  logical opt
+  f(x) = x * Two
+  total = f(a(1)) + sin(b(1))
+  return
+  entry Attrs_Again(a, n)
+  total = 0.0
+end subroutine Attrs
+""",
+    "oop": """module Shapes_Oop
+  type, abstract :: Shape
+    private
+    integer :: id = 0
+    procedure(Area_If), pointer, nopass :: fp => null()
+  contains
+    private
+    procedure(Area_If), deferred, public :: area
+    procedure, public :: describe => Shape_Describe
+    generic, public :: show => describe
+  end type Shape
+  type :: Pair(kd, ln)
+    integer, kind :: kd = 4
+    integer, len :: ln
+    sequence
+    real(kd) :: v(ln)
+  end type Pair
+  type, extends(Shape) :: Disc
+    real :: r
+  contains
+    procedure :: area => Disc_Area
+    final :: Disc_Done
+  end type Disc
+  abstract interface
+    function Area_If(this) result(s)
+      import :: Shape
+      class(Shape), intent(in) :: this
+      real :: s
+    end function Area_If
+  end interface
+  procedure(Area_If), pointer :: Current => null()
+  protected :: Current
+  bind(c, name='count_c') :: Count
+  integer :: Count
+contains
+  function Disc_Area(this) result(s)
+    class(Disc), intent(in) :: this
+    real :: s
+    s = 3.14 * this%r ** 2
+  end function Disc_Area
+  subroutine Shape_Describe(this)
+    class(Shape), intent(in) :: this
+    print *, 'shape', this%id
+  end subroutine Shape_Describe
+  subroutine Disc_Done(this)
+    type(Disc) :: this
+    this%r = 0.0
+  end subroutine Disc_Done
+end module Shapes_Oop
+""",
+    "legacy": """subroutine Legacy(a, b, n, m)
+  integer :: n, m, i, j
+  real :: a(n, m), b(n)
+  do 20 i = 1, n
+    do 20 j = 1, m
+      a(i, j) = 0.0
+20 continue
+  do 30 i = 1, n
+30 b(i) = real(i)
+  outer: do i = 1, n
+    if (b(i) < 0.0) exit outer
+    if (b(i) > 9.0) go to 40
+  end do outer
+40 where (b > 1.0)
+    b = 1.0
+  elsewhere (b < 0.0)
+    b = 0.0
+  elsewhere
+    b = 0.5
+  end where
+  endfile (7)
+  flush (7)
+  wait (unit=7)
+end subroutine Legacy
+""",
+})
+
 VALID_2008 = {
     "block": """program Blk
   integer :: i
